@@ -1,23 +1,24 @@
-"""Assumed callee contracts for the Function operators (discharged - as far as they are - in C02)."""
+"""Assumed callee contracts for the Function operators (discharged - as far as they are - in C02).
+Preconditions as proved there: the oneof is set and Quadratic operands are well-formed COO (fn_coo_ok) - the operators panic otherwise."""
 
-ADD = '''impl AddSpecImpl<Function> for Function { open spec fn obeys_add_spec() -> bool { false } open spec fn add_req(self, rhs: Function) -> bool { self.function is Some && rhs.function is Some } open spec fn add_spec(self, rhs: Function) -> Function { arbitrary() } }
+ADD = '''impl AddSpecImpl<Function> for Function { open spec fn obeys_add_spec() -> bool { false } open spec fn add_req(self, rhs: Function) -> bool { self.function is Some && rhs.function is Some && fn_coo_ok(self) && fn_coo_ok(rhs) } open spec fn add_spec(self, rhs: Function) -> Function { arbitrary() } }
 impl core::ops::Add for Function { type Output = Function;
-    #[verifier::external_body] fn add(self, rhs: Function) -> (r: Function) ensures r == fn_add(self, rhs), is_sum(r, self, rhs) { unimplemented!() } }
+    #[verifier::external_body] fn add(self, rhs: Function) -> (r: Function) ensures r == fn_add(self, rhs), is_sum(r, self, rhs), fn_coo_ok(r) { unimplemented!() } }
 '''
-MUL = '''impl MulSpecImpl<Function> for Function { open spec fn obeys_mul_spec() -> bool { false } open spec fn mul_req(self, rhs: Function) -> bool { self.function is Some && rhs.function is Some } open spec fn mul_spec(self, rhs: Function) -> Function { arbitrary() } }
+MUL = '''impl MulSpecImpl<Function> for Function { open spec fn obeys_mul_spec() -> bool { false } open spec fn mul_req(self, rhs: Function) -> bool { self.function is Some && rhs.function is Some && fn_coo_ok(self) && fn_coo_ok(rhs) } open spec fn mul_spec(self, rhs: Function) -> Function { arbitrary() } }
 impl core::ops::Mul for Function { type Output = Function;
-    #[verifier::external_body] fn mul(self, rhs: Function) -> (r: Function) ensures r == fn_mul(self, rhs), is_prod(r, self, rhs) { unimplemented!() } }
+    #[verifier::external_body] fn mul(self, rhs: Function) -> (r: Function) ensures r == fn_mul(self, rhs), is_prod(r, self, rhs), fn_coo_ok(r) { unimplemented!() } }
 '''
-NEG = '''impl NegSpecImpl for Function { open spec fn obeys_neg_spec() -> bool { false } open spec fn neg_req(self) -> bool { self.function is Some } open spec fn neg_spec(self) -> Function { arbitrary() } }
+NEG = '''impl NegSpecImpl for Function { open spec fn obeys_neg_spec() -> bool { false } open spec fn neg_req(self) -> bool { self.function is Some && fn_coo_ok(self) } open spec fn neg_spec(self) -> Function { arbitrary() } }
 impl core::ops::Neg for Function { type Output = Function;
-    #[verifier::external_body] fn neg(self) -> (r: Function) ensures r == fn_neg(self), is_neg(r, self) { unimplemented!() } }
+    #[verifier::external_body] fn neg(self) -> (r: Function) ensures r == fn_neg(self), is_neg(r, self), fn_coo_ok(r) { unimplemented!() } }
 '''
 ZERO = '''impl Function {
     // Zero::zero for Function (v1_ext/function.rs)
     #[verifier::external_body] pub fn zero() -> (r: Function) ensures r == zero_fn() { unimplemented!() }
 }
 '''
-PARMUL = '''impl<'a> MulSpecImpl<Function> for &'a Parameter { open spec fn obeys_mul_spec() -> bool { false } open spec fn mul_req(self, rhs: Function) -> bool { rhs.function is Some } open spec fn mul_spec(self, rhs: Function) -> Function { arbitrary() } }
+PARMUL = '''impl<'a> MulSpecImpl<Function> for &'a Parameter { open spec fn obeys_mul_spec() -> bool { false } open spec fn mul_req(self, rhs: Function) -> bool { rhs.function is Some && fn_coo_ok(rhs) } open spec fn mul_spec(self, rhs: Function) -> Function { arbitrary() } }
 impl<'a> core::ops::Mul<Function> for &'a Parameter { type Output = Function;
-    #[verifier::external_body] fn mul(self, rhs: Function) -> (r: Function) ensures r == par_mul(*self, rhs), is_par_prod(r, *self, rhs) { unimplemented!() } }
+    #[verifier::external_body] fn mul(self, rhs: Function) -> (r: Function) ensures r == par_mul(*self, rhs), is_par_prod(r, *self, rhs), fn_coo_ok(r) { unimplemented!() } }
 '''
